@@ -56,7 +56,7 @@ static const char *probe_names[PR_MAX] = {
 	"thread_exit_nodeinit", "sig_cb", "sig_during_handler", "sig_handoff", "wait_cb",
 	"pid_reused", "kill_dead", "work_run", "work_done", "pool_put_busy", "idle_timeout",
 	"pump_bytes", "pump_full", "pump_eof", "inot_cb", "inot_multi", "popen_kill",
-	"reg_failed_event", "timer_many", "radix_cross", "sig_nowalk", "sig_foreign_thread", "reg_failed_ext", "timer_parked",
+	"reg_failed_event", "timer_many", "radix_cross", "sig_nowalk", "sig_foreign_thread", "reg_failed_ext", "timer_parked", "reenter_after_quit",
 };
 
 extern int __llvm_profile_write_file(void) __attribute__((weak));
@@ -1163,6 +1163,28 @@ static void obs_wait_enter(int tid, int prim, int64_t tmo, int nfds)
 	note_progress(th);
 	th->nwaits++;
 	th->wait_tmo = tmo;
+	/* C04: descriptor activity must not keep due timers from running.  A timer that was already due by
+	 * the loop's own clock when the previous kernel poll was entered, and is still waiting now, has sat
+	 * through a complete iteration (poll, timer pass, tasks); three in a row is starvation. */
+	if (th->in_main && th->have_clock && th->nwaits_in_main >= 1) {
+		int i;
+		for (i = 0; i < PL->nobj; i++) {
+			struct robj *o = &RO[i];
+			if (PL->obj[i].kind != K_TIMER || PL->obj[i].owner != thr_idx(th))
+				continue;
+			if (o->registered && o->expiry <= th->clock_at_wait && o->reg_seq < th->seq_at_wait) {
+				if (++o->starve[0] >= 3) {
+					viol("C04.starved", "thread %d: timer obj %d (expiry %" PRId64 ") has been due since before the last %d kernel polls (loop clock then %" PRId64 ") and is still not run although the loop keeps iterating",
+					     thr_idx(th), i, o->expiry, o->starve[0], th->clock_at_wait);
+					viol("C07.block_with_due", "thread %d: loop keeps polling with timer obj %d due and never runs it", thr_idx(th), i);
+				}
+			} else {
+				o->starve[0] = 0;
+			}
+		}
+	}
+	th->nwaits_in_main++;
+	th->seq_at_wait = SEQ;
 	th->clock_at_wait = th->last_clock;
 	if (!th->in_main) {
 		viol("C07.outside", "thread %d: kernel wait outside iv_main", thr_idx(th));
@@ -1557,7 +1579,7 @@ static int no_posts_in_progress(void *arg)
 static void *loop_thread(void *arg)
 {
 	struct rthr *th = arg;
-	int t = thr_idx(th), c;
+	int t = thr_idx(th), c, reenter_left = 0;
 	const struct pthr *pt = &PL->thr[t];
 
 	if (t != 0)
@@ -1584,12 +1606,14 @@ static void *loop_thread(void *arg)
 		run_actions(th, CTX_SETUP, t, 0);
 		if (have_viol())
 			finish(1);
+		reenter_left = pt->reenter;
 		for (;;) {
 			int i, again;
 
 			th->quit_req = 0;
 			th->in_main = 1;
 			th->main_entries++;
+			th->nwaits_in_main = 0;
 			th->spin = 0;
 			simk_log(102, t, live_objects(th));
 			iv_main();
@@ -1602,6 +1626,13 @@ static void *loop_thread(void *arg)
 				PROBE[PR_NATURAL_RETURN]++;
 			if (have_viol())
 				finish(1);
+			if (th->quit_req && reenter_left > 0 && !th->td_requested && !teardown_started) {
+				/* the application called iv_quit and simply runs the loop again later, with
+				 * everything that is registered left as it is */
+				reenter_left--;
+				PROBE[PR_REENTER]++;
+				continue;
+			}
 			/* clean up what is still registered (after iv_quit): legal API use outside iv_main */
 			th->post_main = 1;
 			/* pinned objects: no new cross-thread post may start, and posts in progress
